@@ -75,7 +75,10 @@ def run_shard(shard, tier, seed, wd, res):
             s.op(gp + ".mul_pre3", A, V.RR(k), pre3)
             s.op(gp + ".mul_pre256", A, V.RR(k), pre256)
             if k < R and rng.random() < 0.2:
+                # the scalar handed over as a field element (the parameter is generic: S: Into<Repr>)
                 s.op(gp + ".mulfr", Pj, V.r(k))
+                which = rng.randrange(3)
+                s.op(gp + (".amul", ".mul_pre3", ".mul_pre256")[which], A, V.r(k), *([], [pre3], [pre256])[which])
             if k < (1 << 255):
                 small.append(k)
         # wNAF through the public context API, both staging orders, with and without shared()
